@@ -851,6 +851,14 @@ func (fc *FnCtx) sortByName(env *specEnv, n string) namedSort {
 	case "Slice":
 		return namedSort{sortSlice, nil}
 	}
+	// P_basic: pointer to a predeclared type
+	if strings.HasPrefix(n, "P_") && !strings.Contains(n[2:], "_") {
+		if o := types.Universe.Lookup(n[2:]); o != nil {
+			if tn, ok := o.(*types.TypeName); ok {
+				return namedSort{sortInt, types.NewPointer(tn.Type())}
+			}
+		}
+	}
 	// P_pkg_Type: pointer to a Go named type
 	if strings.HasPrefix(n, "P_") {
 		parts := strings.SplitN(n[2:], "_", 2)
